@@ -162,7 +162,9 @@ def main():
             res.count(("refused", str(jkw)), nontrivial=False, refused=kind)
             continue
         size = max(abs(x) for r in exact_nodes for x in r) or 1
-        cols = [(Fr(float(out[0, k])), Fr(float(out[1, k]))) for k in range(out.shape[1])]
+        cols, nonfinite = C.finite_cols(out)
+        if nonfinite:
+            res.failure("self:param-not-finite", "self_intersections returns a NaN / infinite parameter: %s" % out.tolist(), rc)
         # every returned pair is genuine and ordered with a clear gap; never the trivial meeting point
         for (s1, s2) in cols:
             if not (0 <= s1 < s2 <= 1) or s2 - s1 < Fr(1, 2 ** 20):
